@@ -329,7 +329,7 @@ class perdictable(wrapper):
 
             ### rows to be run because has not expired
             today = dt(0)
-            run_expiry = [value is None or value>=today for value in ds[_expiry]]
+            run_expiry = [value is None or dt(value)>=today for value in ds[_expiry]]
             
             ## default values if function is not run
             cache = ds[col] if col in ds.keys() else [None]*len(ds)            
@@ -374,7 +374,7 @@ class perdictable(wrapper):
 
             ### rows to be run because has not expired
             today = dt(0)
-            run_expiry = [value is None or value>today for value in ds[_expiry]]
+            run_expiry = [value is None or dt(value)>today for value in ds[_expiry]]
             
             ## default values if function is not run
             cache = ds(**{key : None for key in missing_cols})[cols]            
